@@ -1908,7 +1908,9 @@ class Engine:
                 out.append((st1, obj))
                 continue
             if isinstance(e.slice, ast.Slice):
-                out.extend(self.get_slice(obj, e.slice, st1, e))
+                hs = self.contract.hooks.get('slice')
+                rs = hs(self, obj, e.slice, st1, e) if hs else None
+                out.extend(rs if rs is not None else self.get_slice(obj, e.slice, st1, e))
                 continue
             for st2, idx in self.eval(e.slice, st1):
                 if isinstance(idx, Raised):
